@@ -333,6 +333,12 @@ class Analysis:
 
     # ---- helpers ------------------------------------------------------------------------------
     def coroutine_of(self, fn_body):
+        """the coroutine body created by an `async fn` item — with the private sync helpers of its module spliced in (see
+        spliced_coroutine_of): the engine and every rule over the loop functions see the same bodies, so an event send or a
+        connection operation moved into `fn notify_closed(events, e)` is still seen where it happens"""
+        return self.spliced_coroutine_of(fn_body)
+
+    def _raw_coroutine_of(self, fn_body):
         """the coroutine body created by an `async fn` item (its closure#0), or None"""
         for bb, i, s in fn_body.stmts():
             if s["k"] == "assign" and s["rv"]["k"] == "agg" and s["rv"]["agg"] == "coroutine" and s["rv"]["def"] in self.prog.bodies:
@@ -343,15 +349,29 @@ class Analysis:
         """coroutine_of(fn) with the private *sync* helpers of its module spliced in (A12): structural rules over the loop functions
         keep seeing e.g. the event-forwarding loop after it was moved into `fn forward_subsystem_changes(..)`.  Block numbers of
         the original coroutine are preserved (spliced blocks are appended), so event / await tables keyed by block stay valid."""
-        co = self.coroutine_of(fn_body)
+        co = self._raw_coroutine_of(fn_body)
         if co is None:
             return None
         cache = self.__dict__.setdefault("_spliced", {})
         if co.id not in cache:
             from .inline import inlined, module_private_helpers
             base = module_private_helpers(co)
-            # (the function that turns a reply frame into a Subsystem value is an anchor of C04's rules and stays a call)
-            cache[co.id] = inlined(self.prog, co, lambda cb: not cb.raw.get("coroutine") and base(cb) and "client::Subsystem" not in cb.local_ty(0))
+            # only helpers that hand something to a channel (an event or a reply) are spliced — what the engine and the rules track;
+            # constructors of commands (`idle()`), the frame -> Subsystem conversion etc. stay calls, they are anchors
+            prog = self.prog
+
+            def sends(cb, depth=2):
+                for _, t in cb.calls():
+                    ns = callee_names(t)
+                    if any(n.startswith("tokio::sync::") and n.endswith("::send") for n in ns):
+                        return True
+                    f = callee(t)
+                    tb = prog.bodies.get((f or {}).get("inst") or (f or {}).get("def")) if f else None
+                    if depth > 0 and tb is not None and tb.crate == cb.crate and tb.kind in ("Fn", "AssocFn") and not tb.raw.get("coroutine") and sends(tb, depth - 1):
+                        return True
+                return False
+            nb = inlined(prog, co, lambda cb: not cb.raw.get("coroutine") and base(cb) and "client::Subsystem" not in cb.local_ty(0) and sends(cb))
+            cache[co.id] = nb if nb.raw.get("inlined") else co
         return cache[co.id]
 
     def info(self, body):
